@@ -1,0 +1,22 @@
+//go:build verif
+
+package common
+
+import "sync/atomic"
+
+var verifHook atomic.Value // func(string)
+
+// SetVerifHook installs (or, with nil, removes) the callback run at every VerifPoint.
+func SetVerifHook(f func(label string)) {
+	if f == nil {
+		f = func(string) {}
+	}
+	verifHook.Store(f)
+}
+
+// VerifPoint marks a schedule point; the verification harness can park a goroutine here.
+func VerifPoint(label string) {
+	if f, ok := verifHook.Load().(func(string)); ok {
+		f(label)
+	}
+}
